@@ -34,7 +34,8 @@ TRUSTED = [
     "no network: make_url_request is replaced by a stub raising URLError (this sandbox is offline anyway)",
     "the code as it is = /repo with the fix commits da46472 (C19-F1 lock acquired), 19ec63c (C19-F2 copy to "
     "<name>.<pid>.tmp then os.replace), 160dd4a (C19-F3 missing bundled version looked up in the installed folder, "
-    "except tuples), b23f2f7 (C19-F4 tolerant stamp read + atomic stamp write): it is driven against the model kinds "
+    "except tuples), b23f2f7 (C19-F4 tolerant stamp read + atomic stamp write), 8dfe516 (C19-F5 parse fall-back "
+    "to the installed file): it is driven against the model kinds "
     "KLoadFixed/KRefreshFixed (VERIF_C19_FIXED>=1) and the oracle accepts no class of those four findings. "
     "VERIF_C19_FIXED=0 drives a tree from BEFORE those commits against KLoad/KRefresh (record of the repaired "
     "defects); VERIF_C19_FIXED=2 (the default: /repo carries fix-F5 as commit 8dfe516) drives a tree that also has the parse fall-back (parse_fallback); VERIF_C19_FIXED=1 a tree before 8dfe516. In the children "
@@ -75,11 +76,12 @@ ASSUMPTIONS = [
 NCH = 2
 VT0 = 10000
 MAXTRIES = 3
-# 1 (default): the tree under test is the code as it is, i.e. it carries the fix commits da46472 (C19-F1), 19ec63c
-#    (C19-F2), 160dd4a (C19-F3), b23f2f7 (C19-F4); it is driven against KLoadFixed / KRefreshFixed and none of those
-#    four finding classes is accepted.  The open finding C19-F5 (pre-existing torn final-name file) is still accepted.
-# 0: a tree from before those commits (record of the repaired defects), driven against KLoad / KRefresh.
-# 2: a tree that also carries fix-F5 (commit 8dfe516, parse_fallback) = /repo; no finding class at all is accepted.
+# 2 (default): the tree under test is the code as it is = /repo with the five fix commits da46472 (C19-F1), 19ec63c
+#    (C19-F2), 160dd4a (C19-F3), b23f2f7 (C19-F4), 8dfe516 (C19-F5, parse_fallback); it is driven against
+#    KLoadFixed / KRefreshFixed with parse_fallback on, and NO finding class is accepted.
+# 1: a tree from before 8dfe516 (the first four fixes only): the class of the repaired defect C19-F5 (pre-existing
+#    torn final-name file) is accepted, nothing else.  (record)
+# 0: a tree from before all those commits, driven against KLoad / KRefresh.  (record of the repaired defects)
 FIXED = int(os.environ.get("VERIF_C19_FIXED", "2"))   # 2: /repo carries fix-F5 as commit 8dfe516
 
 
